@@ -2,6 +2,7 @@ package c15
 
 import (
 	"bytes"
+	"context"
 	"encoding/base64"
 	"fmt"
 	"io"
@@ -10,6 +11,8 @@ import (
 	"time"
 
 	"mellium.im/xmpp/ibb"
+	"mellium.im/xmpp/jid"
+	"mellium.im/xmpp/stanza"
 
 	"verifharness/common"
 )
@@ -138,4 +141,97 @@ func runDuplexConcurrent(r *common.Run, carrier string, packets int) {
 	}
 	_ = io.EOF
 	r.Case(fmt.Sprintf("duplex-concurrent %s %d", carrier, packets), true, "concurrent")
+}
+
+// runTableConcurrent: the stream table under concurrent use.  The peer has 2k+1 streams open; a
+// goroutine of the application opens and closes k streams of its own (OpenIQ registers, Close
+// unregisters once the peer has answered).  The peer sends the close of one of ITS streams right
+// behind every answer it gives (so the serve goroutine looks that stream up while the application
+// goroutine, just woken by the answer, registers / unregisters its own), and data packets for the
+// stream that stays open.  Free running; for the race detector, and as a functional check in the
+// other tiers: every close and every packet is answered as if nothing else went on.
+func runTableConcurrent(r *common.Run, carrier string, k int) {
+	p, err := newPeer()
+	if err != nil {
+		return
+	}
+	defer p.stop()
+	lines := []string{fmt.Sprintf("#stream table concurrent carrier=%s streams=%d (free running: the peer closes its streams while the application opens and closes others)", carrier, k)}
+	ln := p.h.Listen(p.rs.S)
+	np := 2*k + 1
+	for i := 0; i < np; i++ {
+		acc := make(chan net.Conn, 1)
+		go func() { c, _ := ln.Accept(); acc <- c }()
+		id := fmt.Sprintf("to%d", i)
+		p.feed(fmt.Sprintf(`<iq xmlns="jabber:client" type="set" id="%s" from="%s" to="me@example.net/h"><open xmlns="http://jabber.org/protocol/ibb" sid="P%d" block-size="16" stanza="%s"/></iq>`, id, peerJID, i, carrier))
+		select {
+		case <-acc:
+		case <-time.After(watchdog):
+			r.Notes = append(r.Notes, "table-concurrent: setup failed")
+			return
+		}
+		p.pump(func() bool { return p.replies[id] != "" })
+	}
+	done := make(chan string, 1)
+	go func() {
+		for i := 0; i < k; i++ {
+			c, err := p.h.OpenIQ(context.Background(), stanza.IQ{To: jid.MustParse(peerJID)}, p.rs.S, carrier == "iq", 16, fmt.Sprintf("Q%d", i))
+			if err != nil {
+				done <- "OpenIQ: " + err.Error()
+				return
+			}
+			if err = c.Close(); err != nil {
+				done <- "Close: " + err.Error()
+				return
+			}
+		}
+		done <- ""
+	}()
+	next, nd := 0, 0
+	res := "?"
+	t := time.NewTimer(watchdog)
+	defer t.Stop()
+	for res == "?" {
+		select {
+		case e := <-p.in:
+			name := ""
+			if len(e.Children) > 0 {
+				name = e.Children[0].XMLName.Local
+			}
+			if e.XMLName.Local == "iq" && e.Type == "set" && (name == "open" || name == "close") && next < np-1 {
+				// the answer, and right behind it the close of one of the peer's own streams and a
+				// packet for the stream that stays open
+				p.feed(fmt.Sprintf(`<iq xmlns="jabber:client" type="result" id="%s" from="%s"/>`, e.ID, peerJID) +
+					fmt.Sprintf(`<iq xmlns="jabber:client" type="set" id="tc%d" from="%s" to="me@example.net/h"><close xmlns="http://jabber.org/protocol/ibb" sid="P%d"/></iq>`, next, peerJID, next) +
+					fmt.Sprintf(`<iq xmlns="jabber:client" type="set" id="td%d" from="%s" to="me@example.net/h"><data xmlns="http://jabber.org/protocol/ibb" seq="%d" sid="P%d">QQ==</data></iq>`, nd, peerJID, nd, np-1))
+				next++
+				nd++
+			} else {
+				p.handle(e)
+			}
+		case res = <-done:
+		case <-t.C:
+			res = "stalled"
+			r.Fail("deliver", "concurrent-table-stalls", lines, "opening and closing streams while the peer closes others did not finish")
+		}
+	}
+	if res != "" && res != "stalled" {
+		r.Fail("deliver", "concurrent-table-open-or-close-failed", lines, res)
+	}
+	if !p.sync() {
+		r.Fail("serve-continues", "serve-stalled-after-concurrent-table", lines, "the serve loop no longer answers")
+	}
+	for i := 0; i < nd; i++ {
+		if rep := p.replies[fmt.Sprintf("td%d", i)]; rep != "ack" {
+			r.Fail("deliver", "concurrent-table-packet-refused", lines, fmt.Sprintf("packet %d of the stream that stays open was answered %q", i, rep))
+			break
+		}
+	}
+	for i := 0; i < next; i++ {
+		if rep := p.replies[fmt.Sprintf("tc%d", i)]; rep != "ack" {
+			r.Fail("close", "concurrent-table-close-refused", lines, fmt.Sprintf("the peer's close of its open stream %d was answered %q", i, rep))
+			break
+		}
+	}
+	r.Case(fmt.Sprintf("table-concurrent %s %d", carrier, k), true, "concurrent")
 }
